@@ -21,3 +21,6 @@ pub fn op_enabled(_plan: &Plan) -> bool {
     false
 }
 pub fn do_op(_plan: &mut Plan, _root: &mut dyn Root) {}
+pub fn planned_ops(_plan: &Plan) -> u32 {
+    0
+}
